@@ -1,6 +1,6 @@
 (* Extraction of the persistence state-machine models to OCaml (ExtrOcamlBasic only). *)
 From Coq Require Import Extraction ExtrOcamlBasic ZArith NArith.
-From LV Require Import Model.TableSM Model.Catalogue Model.WalSM.
+From LV Require Import Model.TableSM Model.Catalogue Model.WalSM Model.CrashSM.
 Extraction Language OCaml.
 (* the extracted copy of Coq's List must not shadow OCaml's List in the shared glue (conv.ml) *)
 Extraction Blacklist List String Nat.
@@ -8,4 +8,4 @@ Separate Extraction
   BinInt.Z.add BinInt.Z.compare BinNat.N.add
   TableSM.plan_compaction
   Catalogue.s_column_name Catalogue.s_column_names
-  WalSM.run_h WalSM.init.
+  WalSM.run_h WalSM.init CrashSM.run_effects.
